@@ -9,7 +9,7 @@ from . import alloc_model, common, cons, hand, hist, place, xt
 
 PID = "C20"
 
-GROUPS = ["one", "two-shared", "two-separate", "three-mixed", "bytearray-shared", "hole-in-the-middle", "explicit-offset", "bytearray-hole", "grown-shared"]
+GROUPS = ["one", "two-shared", "two-separate", "three-mixed", "bytearray-shared", "hole-in-the-middle", "explicit-offset", "bytearray-hole", "grown-shared", "aligned-shared", "aligned-bytearray"]
 
 
 def describe(tier):
@@ -89,6 +89,13 @@ def make_group(group, make, make_at=None):
         # the shared buffer has GROWN (more than once) before anything is pickled
         bg = ctx.new_buffer(8)
         return [make(bg, 0), make(bg, 1), make(bg, 2)]
+    if group in ("aligned-shared", "aligned-bytearray"):
+        # the shared buffer was built with an alignment of its own (not the context's minimum); an odd allocation in front
+        from xobjects.context_cpu import BufferNumpy
+
+        ba = (BufferNumpy if group == "aligned-shared" else BufferByteArray)(capacity=48, context=ctx, default_alignment=16)
+        ba.allocate(3)
+        return [make(ba, 0), make(ba, 1)]
     if group == "bytearray-shared":
         b3 = BufferByteArray(capacity=16, context=ctx)
         return [make(b3, 0), make(b3, 1)]
@@ -100,10 +107,14 @@ def extent(x):
     return int(xo_._offset), hand.size_of(xo_)
 
 
-def allocator_check(buf, objs, res, explicit=False):
+def allocator_check(buf, objs, res, explicit=False, align=None):
     """the unpickled buffer as an allocator: allocate/free a few regions, judged against a byte map seeded from its own free list"""
     out = []
     cap = buf.capacity
+    if align is None:
+        align = buf.default_alignment
+    elif buf.default_alignment != align:  # the alignment the buffer was BUILT with (read off the original), not what the copy claims
+        out.append(("C20.allocator", "alignment-forgotten", "buffer built with default_alignment=%r reports %r after unpickling" % (align, buf.default_alignment)))
     m = alloc_model.ByteMap(cap)
     free = set()
     for ch in buf.chunks:
@@ -134,7 +145,7 @@ def allocator_check(buf, objs, res, explicit=False):
             if off < o2 + s2 and o2 < off + size:
                 out.append(("C20.allocator", "overlaps-live", "allocate(%d) -> %d overlaps [%d,%d)" % (size, off, o2, o2 + s2)))
         if buf.capacity == cap:
-            fit = m.first_fit(size, buf.default_alignment)
+            fit = m.first_fit(size, align)
             if fit is None or fit[1] != off:
                 out.append(("C20.allocator", "not-first-fit", "allocate(%d) -> %d, byte map says %r" % (size, off, fit)))
             else:
@@ -142,7 +153,7 @@ def allocator_check(buf, objs, res, explicit=False):
         else:
             m.extend(buf.capacity)
             cap = buf.capacity
-            fit = m.first_fit(size, buf.default_alignment)
+            fit = m.first_fit(size, align)
             if fit is not None and fit[1] == off:
                 m.take(fit[0], off, size, 7)
             else:
@@ -393,10 +404,10 @@ def run_xo(name, tier, res, seed):
             except Exception:
                 continue  # (reported by the write histories above)
             seenb = []
-            for n_ in new:
+            for i_, n_ in enumerate(new):
                 if not any(n_._buffer is b for b in seenb):
                     seenb.append(n_._buffer)
-                    for o_, f_, d_ in allocator_check(n_._buffer, new, res, explicit=(group == "explicit-offset")):
+                    for o_, f_, d_ in allocator_check(n_._buffer, new, res, explicit=(group == "explicit-offset"), align=objs[i_]._buffer.default_alignment):
                         bad(o_, f_, f, dict(cid, writes=common.jsonable([list(x) for x in ws])), d_)
             r = check(objs, new, mo, mn, "after allocating on the unpickled buffers")
             if not r:
@@ -531,10 +542,10 @@ def run_hyb(name, tier, res, seed):
         new = pickle.loads(pickle.dumps(objs, protocol=proto))
         ref = [hyb_read(name, o) for o in new]
         seenb = []
-        for n_ in new:
+        for i_, n_ in enumerate(new):
             if not any(n_._buffer is b for b in seenb):
                 seenb.append(n_._buffer)
-                for o_, f_, d_ in allocator_check(n_._buffer, new, res):
+                for o_, f_, d_ in allocator_check(n_._buffer, new, res, align=objs[i_]._buffer.default_alignment):
                     bad(o_, f_, f, cid, d_)
         if [hyb_read(name, o) for o in new] != ref:
             bad("C20.allocator", "allocation-damaged-unpickled-object", f, cid, "")
